@@ -13,6 +13,9 @@ structure Lat2DModel where
   stabilizerType : Coord → Option String
   qubitAxis : Coord → Option String
   getDeformation : String → String → Coord → Option PauliMap
+  /-- the explicit independent family of `n − k` stabilizer locations of the class's rank theorem
+      (`C01<Class>.generators_independent`) -/
+  rankFamily : List Coord
 
 def lat2dShowCoords (cs : List Coord) : String :=
   if cs.isEmpty then "_" else ";".intercalate (cs.map showCoord)
@@ -47,6 +50,8 @@ def lat2dAnswer (m : Lat2DModel) : List String → Option String
       | some L => showStack L | none => "ERR key")
   | ["lzmat"] => some (match logicalsZ m.lat.toCodeData with
       | some L => showStack L | none => "ERR key")
+  -- evaluated by the harness on the IMPLEMENTATION's parity-check matrix (members, rank)
+  | ["rankfamily"] => some (lat2dShowCoords m.rankFamily)
   | ["n"] => some (toString m.lat.toCodeData.n)
   | ["k"] => some (toString m.lat.toCodeData.k)
   | _ => none
